@@ -48,7 +48,21 @@ func genC17(r *rand.Rand, n int, emit func(string)) {
 			// ProcessOperation
 			b := canon
 			plabel := "process/create"
-			switch r.Intn(11) {
+			switch r.Intn(12) {
+			case 11:
+				// a request whose canonical form is longer than the bytes received (1E30 -> 1e+30),
+				// at the operation size limit of the handler's protocol (2500)
+				mod := deepCopy(req).(map[string]interface{})
+				sd := mod["suffixData"].(map[string]interface{})
+				const mark = `"@@NUM@@"`
+				sd["anchorOrigin"] = []interface{}{"@@NUM@@", ""}
+				target := 2500 + pick(r, []int{-1, 0, 1}) // length of the bytes handed in
+				base := len(opb.Canon(mod)) - len(mark) + len("1E30")
+				if target > base {
+					sd["anchorOrigin"] = []interface{}{"@@NUM@@", strings.Repeat("a", target-base)}
+				}
+				b = []byte(strings.Replace(string(opb.Canon(mod)), mark, "1E30", 1))
+				plabel = "process/canonical-form-longer-at-size-limit"
 			case 10:
 				// one member twice (encoding/json merges them; outside the model, the predicate still applies)
 				k := pick(r, []string{"delta", "suffixData", "type"})
